@@ -9,6 +9,7 @@ import SxVerif.Generated.StagesEngine
 import SxVerif.Generated.Constants
 import SxVerif.Generated.Problems
 import SxVerif.Generated.JsonWriter
+import SxVerif.Proofs.Plain
 
 namespace SxVerif.C08
 open SxVerif.Engine SxVerif.Generated SxVerif.StageDesc
@@ -162,5 +163,16 @@ def exView (s : Sys) : MainPc × Bool × List Nat × List Nat × List Nat × Opt
 
 example : (exec exCfg (init exReqs []) exSched).map exView
     = some (.returned, false, [0], [1, 2], [0, 1, 3], some 0, some 1, some 0) := by rfl
+
+
+/-- **one detection, one output record — also without `--json`**: the plain-text writer hands the sink
+    `result.String()` and a newline in ONE write; for the arp / tcp / icmp(udp) / socks results that text is the padded
+    columns of `Model/Plain.lean`, and if no string of the result holds a newline byte (addresses, MACs and flag
+    letters never do) the text has none: the write is exactly one line.  (Tie: tag `jplain` of component `json`, the
+    real logger in its default mode, byte for byte.) -/
+theorem plain_one_line (r : SxVerif.Json.Result) (h : SxVerif.Plain.NoNewline r) (body : List UInt8)
+    (hb : SxVerif.Plain.renderPlain r = some body) :
+    (10 : UInt8) ∉ body ∧ SxVerif.Plain.plainLine r = some (body ++ [10]) :=
+  SxVerif.Plain.plain_one_line r h body hb
 
 end SxVerif.C08
